@@ -48,19 +48,19 @@ theorem no_request_twice (U : Universe) (fuel : Nat) (ps : List Problem) (s : S)
 /-! ## Run level: candidates are requested causally -/
 open Resolvo.MDet Resolvo.MDet.Causal in
 /-- **`get_candidates` only for names that obtained dependencies mention** (second sentence of C09, candidates half; the
-    whole model of `solve` with a synchronous provider; every universe, problem, fuel and solver state carried over from
+    whole model of `solve`, synchronous and asynchronous provider under every completion order; every universe, problem, fuel and solver state carried over from
     earlier solves, with or without hints, whatever the outcome): every package whose candidates were requested during a
     solve (`issuedCands`, which the driver checks to be the `c<n>` entries of the call log compared with the implementation's)
     is named by a requirement (any member of a union) or a constrains entry of the root or of a solvable whose
     dependencies are in the cache. The invariant `KInv` is maintained by every function of the model (`MDet/Causal.lean`),
     so at the moment of the request the dependencies had been obtained. -/
-theorem candidates_requested_causally (U : Universe) (P : Problem) (fuel : Nat) (s : S) (hs : s.asyncMode = false) :
+theorem candidates_requested_causally (U : Universe) (P : Problem) (fuel : Nat) (s : S) :
     ∀ n ∈ (solveRun U P fuel s).2.issuedCands, ∃ sid : Option Nat,
       (match sid with | none => True | some sv => sv ∈ (solveRun U P fuel s).2.fetchedDeps) ∧
       ∃ reqs cons, sidDeps U P sid = some (reqs, cons) ∧
         ((∃ r ∈ reqs, ∃ vs ∈ U.reqVersionSets r, U.vsName vs = n) ∨ ∃ vs ∈ cons, U.vsName vs = n) := by
   intro n hn
-  obtain ⟨sid, h1, h2⟩ := (solveRun_kinv U P fuel s hs).cands n hn
+  obtain ⟨sid, h1, h2⟩ := (solveRun_kinv U P fuel s).cands n hn
   refine ⟨sid, ?_, h2⟩
   cases sid with
   | none => trivial
@@ -69,9 +69,9 @@ theorem candidates_requested_causally (U : Universe) (P : Problem) (fuel : Nat) 
 open Resolvo.MDet Resolvo.MDet.Causal in
 /-- and what remains queued is causal too: a requirement / constraint is only ever looked at for a solvable whose dependencies
     have been obtained and that really has it -/
-theorem queued_tasks_causal (U : Universe) (P : Problem) (fuel : Nat) (s : S) (hs : s.asyncMode = false) :
+theorem queued_tasks_causal (U : Universe) (P : Problem) (fuel : Nat) (s : S) :
     ∀ t ∈ (solveRun U P fuel s).2.queue, KTask U P (solveRun U P fuel s).2 t :=
-  (solveRun_kinv U P fuel s hs).queue
+  (solveRun_kinv U P fuel s).queue
 
 /-- non-vacuity: the default solver state is fresh -/
 example : Resolvo.MDet.Once {} := fresh_once {} rfl rfl
